@@ -28,7 +28,7 @@ Definition alpha_res_ok (fs mn : list nat) (r : alpha_res) : bool :=
 (* --- the inner-ring part --- *)
 Definition ir_expected (ir fs alpha : list nat) : list nat :=
   sort (filter (fun x => negb (mem x fs && negb (mem x alpha))) ir      (* drop replaced keys *)
-        ++ filter (fun x => negb (mem x fs)) alpha).                       (* add the new keys *)
+        ++ filter (fun x => negb (mem x fs) && negb (mem x ir)) alpha).   (* add the new keys (once: a new key may be an inner-ring key already) *)
 Definition ir_ok (ir fs alpha newir : list nat) : bool :=
   nodupb newir && list_nat_eqb (sort newir) (ir_expected ir fs alpha).
 
